@@ -157,17 +157,96 @@ def print_assumptions(modname: str, names: Sequence[str]) -> Dict[str, List[str]
         shutil.rmtree(d, ignore_errors=True)
 
 
-def grep_forbidden() -> List[str]:
+def _strip_comments_strings(src: str) -> str:
+    """blanks out (nested) comments and string literals, keeping offsets"""
+    out = list(src)
+    i, n, depth = 0, len(src), 0
+    while i < n:
+        if src.startswith('(*', i):
+            depth += 1; out[i] = out[i + 1] = ' '; i += 2; continue
+        if depth and src.startswith('*)', i):
+            depth -= 1; out[i] = out[i + 1] = ' '; i += 2; continue
+        if depth:
+            if src[i] != '\n':
+                out[i] = ' '
+            i += 1; continue
+        if src[i] == '"':
+            j = i + 1
+            while j < n and src[j] != '"':
+                j += 1
+            for k in range(i, min(j + 1, n)):
+                if out[k] != '\n':
+                    out[k] = ' '
+            i = j + 1; continue
+        i += 1
+    return ''.join(out)
+
+
+AXIOM_WORDS = r'(?:Axiom|Axioms|Parameter|Parameters|Conjecture|Conjectures)'
+SECTION_LOCAL = r'(?:Variable|Variables|Hypothesis|Hypotheses|Context)'
+ANYWHERE = re.compile(r'\b(Admitted|admit|give_up|Admit\s+Obligations|Unset\s+Guard\s+Checking|bypass_check|'
+                      r'Unset\s+Positivity\s+Checking|Unset\s+Universe\s+Checking|native_compute|type-in-type|impredicative-set)\b')
+PREFIX = r'(?:(?:Local|Global|Polymorphic|Monomorphic|Private|Program)\s+|#\[[^\]]*\]\s*)*'
+
+
+def scan_forbidden(f: Path) -> List[str]:
+    """Vernacular that declares an axiom or switches a kernel check off, found at SENTENCE level (comments and string
+    literals are ignored; Variable/Hypothesis/Context are only flagged outside every Section)."""
+    src = _strip_comments_strings(f.read_text())
     hits = []
-    for f in sorted(THEORIES.rglob('*.v')):
-        src = f.read_text()
-        nocom = re.sub(r'\(\*.*?\*\)', lambda m: ' ' * len(m.group(0)), src, flags=re.S)
-        for m in FORBIDDEN.finditer(nocom):
-            ln = nocom.count('\n', 0, m.start()) + 1
-            hits.append('%s:%d:%s' % (f.relative_to(VERIF), ln, m.group(0)))
-    for f in [COQ / '_CoqProject']:
-        if f.exists() and re.search(r'type-in-type|impredicative-set', f.read_text()):
-            hits.append(str(f))
+    for m in ANYWHERE.finditer(src):
+        hits.append('%s:%d:%s' % (f.relative_to(VERIF), src.count('\n', 0, m.start()) + 1, m.group(0)))
+    depth = 0
+    # sentences end with a period followed by whitespace/EOF
+    pos = 0
+    for sm in re.finditer(r'\.(?=\s|$)', src):
+        sent = src[pos:sm.start()].strip()
+        start = pos
+        pos = sm.end()
+        sent = sent.lstrip('-+*{} \n\t')
+        m = re.match(PREFIX + r'(\w+)', sent)
+        if not m:
+            continue
+        head = m.group(1)
+        ln = src.count('\n', 0, start + (len(src[start:sm.start()]) - len(src[start:sm.start()].lstrip()))) + 1
+        if head == 'Section':
+            depth += 1
+        elif head == 'End' and depth > 0:
+            depth -= 1   # Modules also end with End; a Module inside depth 0 does not change depth below 0
+        elif re.fullmatch(AXIOM_WORDS, head):
+            hits.append('%s:%d:%s' % (f.relative_to(VERIF), ln, head))
+        elif re.fullmatch(SECTION_LOCAL, head) and depth == 0:
+            hits.append('%s:%d:%s outside a Section' % (f.relative_to(VERIF), ln, head))
+    return hits
+
+
+def coq_cone(props_module: str, extra: Sequence[str] = ()) -> List[Path]:
+    """The .v files transitively required (within PydoctorVerif) by the given modules."""
+    seen: Dict[str, Path] = {}
+    todo = [props_module] + [e for e in extra]
+    while todo:
+        m = todo.pop()
+        if m in seen:
+            continue
+        f = THEORIES / (m.replace('.', '/') + '.v')
+        if not f.exists():
+            continue
+        seen[m] = f
+        src = _strip_comments_strings(f.read_text())
+        for grp in re.findall(r'From\s+PydoctorVerif\s+Require\s+(?:Import\s+|Export\s+)?([A-Za-z0-9_.\s]+?)\.(?=\s|$)', src):
+            todo.extend(grp.split())
+        for grp in re.findall(r'Require\s+(?:Import\s+|Export\s+)?((?:PydoctorVerif\.[A-Za-z0-9_.]+\s*)+)\.(?=\s|$)', src):
+            todo.extend(x[len('PydoctorVerif.'):] for x in grp.split())
+    return sorted(seen.values())
+
+
+def grep_forbidden(files: Optional[Sequence[Path]] = None) -> List[str]:
+    hits: List[str] = []
+    for f in (files if files is not None else sorted(THEORIES.rglob('*.v'))):
+        hits.extend(scan_forbidden(f))
+    cp = COQ / '_CoqProject'
+    if cp.exists() and re.search(r'type-in-type|impredicative-set', cp.read_text()):
+        hits.append(str(cp))
     return hits
 
 
@@ -446,7 +525,9 @@ def run_check(cls: type, tier: str, seed: int) -> int:
                     broken.append(Violation('theorem', 'theorem %s depends on axioms %s' % (n, axs), found_input=False))
                 else:
                     discharged += 1
-        hits = grep_forbidden()
+        cone = coq_cone(chk.props_module, [vm_module_of(x) for x in chk.models.values()] + ['Extract.' + x[:-2] for x in chk.models.values()])
+        hits = grep_forbidden(cone)
+        chk.stats['coq_cone_files'] = [str(c.relative_to(THEORIES)) for c in cone]
         if hits:
             broken.append(Violation('theorem', 'forbidden vernacular in development: ' + ', '.join(hits[:10]),
                                     found_input=False))
